@@ -161,6 +161,11 @@ func decodePacked6BitAscii(b []byte, c int) (string, int, error) {
 }
 
 func decode8BitAsciiLatin1(b []byte, c int) (string, int, error) {
+	if c == 0 {
+		// "0 if data is not present": an empty string needs no bytes
+		return "", 0, nil
+	}
+
 	if len(b) < 2 {
 		// it is unclear why this limitation exists, but it's plain to
 		// see in the specification
